@@ -41,16 +41,29 @@ func GetApparmorLogs(file io.Reader, profile string) []string {
 		isAppArmorLog = regexp.MustCompile(exp)
 	}
 
-	scanner := bufio.NewScanner(file)
-	for scanner.Scan() {
-		line := scanner.Text()
+	readLines(file, func(line string) {
 		if isAppArmorLog.MatchString(line) {
 			logs = append(logs,
 				regCleanLogs.Replace(util.DecodeHexInString(line)),
 			)
 		}
-	}
+	})
 	return util.RemoveDuplicate(logs)
+}
+
+// readLines calls fn on every line of file, whatever its length (a bufio.Scanner
+// stops for good at the first line longer than its 64 KiB buffer).
+func readLines(file io.Reader, fn func(line string)) {
+	reader := bufio.NewReader(file)
+	for {
+		line, err := reader.ReadString('\n')
+		if len(line) > 0 {
+			fn(strings.TrimRight(line, "\r\n"))
+		}
+		if err != nil {
+			return
+		}
+	}
 }
 
 // GetAuditLogs return a reader with the logs entries from Auditd
